@@ -16,6 +16,7 @@ import (
 	"strconv"
 	"strings"
 	"sync"
+	"sync/atomic"
 	"testing"
 	"testing/synctest"
 	"time"
@@ -319,6 +320,7 @@ type Summary struct {
 	Stray        int            `json:"stray"`
 	ProgressRuns int            `json:"progress_runs"`
 	PerSeedFp    map[string]string `json:"per_seed_fp,omitempty"`
+	Recycle      bool              `json:"recycle,omitempty"` // stopped early to be restarted in a fresh process
 }
 
 // ViolationRec is a violation found by a worker with its replay file.
@@ -400,7 +402,27 @@ func replayMain(t *testing.T, h Harness) {
 	writeJSON(os.Getenv("VERIF_OUT"), out)
 }
 
+var curSeed atomic.Uint64
+
+// memGuard turns a single run that blows up memory into an explicit exit 2 naming the seed
+// (instead of the kernel OOM killer taking a worker down without a trace).
+func memGuard(name string) {
+	limit := uint64(envInt("VERIF_RUN_MEM_MB", 3000)) << 20
+	go func() {
+		for {
+			time.Sleep(500 * time.Millisecond)
+			var ms runtime.MemStats
+			runtime.ReadMemStats(&ms)
+			if ms.HeapAlloc > limit {
+				fmt.Fprintf(os.Stderr, "MEMGUARD: harness %s run seed=%d heap=%dMB exceeds the per-run limit; aborting (exit 2)\n", name, curSeed.Load(), ms.HeapAlloc>>20)
+				os.Exit(2)
+			}
+		}
+	}()
+}
+
 func exploreMain(t *testing.T, h Harness) {
+	memGuard(h.Name)
 	base := uint64(envInt("VERIF_SEED", 1))
 	worker := envInt("VERIF_WORKER", 0)
 	maxRuns := envInt("VERIF_MAXRUNS", 1<<40)
@@ -441,11 +463,22 @@ func exploreMain(t *testing.T, h Harness) {
 	states := map[uint64]struct{}{}
 	byKey := map[string]*ViolationRec{}
 	t0 := time.Now()
+	maxMem := uint64(envInt("VERIF_MAX_MEM_MB", 1200)) << 20
 	for i := 0; i < maxRuns && time.Since(t0) < budget; i++ {
+		if i%32 == 31 {
+			// goroutines left blocked in finished bubbles are never collected: recycle the process
+			var ms runtime.MemStats
+			runtime.ReadMemStats(&ms)
+			if ms.Sys > maxMem {
+				sum.Recycle = true
+				break
+			}
+		}
 		seed := mix(base, uint64(worker), uint64(i))
 		if emitFp {
 			seed = mix(base, 0, uint64(i)) // determinism test: same seeds in every process
 		}
+		curSeed.Store(seed)
 		r := RunOnce(t, h, seed, nil, false)
 		sum.Runs++
 		sum.Steps += int64(r.Steps)
